@@ -138,6 +138,23 @@ struct Config
 };
 
 // ------------------------------------------------------------------------------------------------ model element
+// a wider arithmetic type every value of T converts to and back from exactly (T itself when there is none)
+template <class T, class = void>
+struct Wider
+{
+    using type = T;
+};
+template <class T>
+struct Wider<T, std::enable_if_t<std::is_integral_v<T> && !std::is_same_v<T, bool> && (sizeof(T) < 8)>>
+{
+    using type = std::conditional_t<std::is_signed_v<T>, int64_t, uint64_t>;
+};
+template <>
+struct Wider<float, void>
+{
+    using type = double;
+};
+
 struct MElem
 {
     uint64_t id{};
@@ -254,36 +271,63 @@ struct Glue
         return a;
     }
 
-    template <size_t I>
+    // Form of the source handed to emplace_back for span parameters (the values are the same in every form):
+    //   0  std::vector<T>&&   1  const std::vector<T>&   2  a contiguous range of a WIDER arithmetic type (uint16_t items from
+    //   std::vector<uint64_t>, float items from std::vector<double>): every item converts exactly, and a byte-copying fast
+    //   path that forgets the widths writes sizeof(source item) bytes per item
+    static constexpr int EMPLACE_FORMS = 3;
+
+    template <size_t I, int Form>
     static auto make_arg(const std::vector<int64_t>& items)
     {
         using Dc = typename Cfg::template DescAt<I>;
         using T = typename Dc::Type;
         if constexpr (Dc::KIND == 'F' || Dc::KIND == 'V')
         {
-            std::vector<T> v;
+            using S = std::conditional_t<Form == 2, typename Wider<T>::type, T>;
+            std::vector<S> v;
             v.reserve(items.size());
-            for (auto x : items) v.push_back(Codec<T>::make(x));
+            for (auto x : items)
+            {
+                if constexpr (std::is_same_v<S, T>)
+                    v.push_back(Codec<T>::make(x));
+                else
+                    v.push_back(static_cast<S>(Codec<T>::make(x)));
+            }
             return v;
         }
         else
             return Codec<T>::make(items[0]);
     }
 
-    template <class Vec, size_t... I>
+    template <int Form, class A>
+    static decltype(auto) pass_arg(A& a)
+    {
+        if constexpr (Form == 1)
+            return static_cast<const A&>(a);
+        else
+            return std::move(a);
+    }
+
+    template <int Form, class Vec, size_t... I>
     static void emplace_back_impl(Vec& v, const MElem& m, std::index_sequence<I...>)
     {
-        auto args = std::tuple<decltype(make_arg<I>(m.f[I]))...>{make_arg<I>(m.f[I])...};
+        auto args = std::tuple<decltype(make_arg<I, Form>(m.f[I]))...>{make_arg<I, Form>(m.f[I])...};
 #ifndef VF_NO_LIBCALL  // the multi-threaded race engine must not touch the (single-threaded) ledger
         LibCall lc;  // the arguments are built outside: only the library call itself is watched for operator new
 #endif
-        v.emplace_back(std::move(std::get<I>(args))...);
+        v.emplace_back(pass_arg<Form>(std::get<I>(args))...);
     }
 
     template <class Vec>
-    static void emplace_back(Vec& v, const MElem& m)
+    static void emplace_back(Vec& v, const MElem& m, int form = 0)
     {
-        emplace_back_impl(v, m, std::make_index_sequence<NF>{});
+        if constexpr (Cfg::ALL_COPYABLE)
+        {
+            if (form == 1) return emplace_back_impl<1>(v, m, std::make_index_sequence<NF>{});
+        }
+        if (form == 2) return emplace_back_impl<2>(v, m, std::make_index_sequence<NF>{});
+        emplace_back_impl<0>(v, m, std::make_index_sequence<NF>{});
     }
 
     // write one item through a (mutable) reference
